@@ -66,7 +66,71 @@ Proof.
   - inversion H. left. exists fl, d. split; [left; reflexivity | congruence].
 Qed.
 
+(* ---- unary calls: receiveUnaryResponse (connect.go) on the conn's first two Receive results ----
+   one message, then a second Receive that must report the clean end of the
+   response (it is what reads the trailers / the end-of-stream block). A failure
+   of either Receive is returned with the code it carries; only a SECOND MESSAGE
+   is re-coded (unknown). *)
+Inductive ures := UOk (m : M) | UFail (code : N).
+
+Definition single (r : uresult M) : M + outcome :=
+  match r with
+  | UMsg m => inl m
+  | UErr REOF => inr on_eof
+  | UErr (RErr c) => inr (on_error c)
+  | USpecial fl d => inr (on_special fl d)
+  end.
+
+Definition unary_outcome (rs : list (uresult M)) : ures :=
+  match rs with
+  | r1 :: r2 :: _ =>
+    match single r1 with
+    | inr Clean => UFail 2            (* the stream ended before any message: unknown *)
+    | inr (Failed c) => UFail c
+    | inl m =>
+      match single r2 with
+      | inr Clean => UOk m
+      | inr (Failed c) => UFail c     (* a failure after the message keeps its code *)
+      | inl _ => UFail 2              (* a second message: unknown *)
+      end
+    end
+  | _ => UFail 2
+  end.
+
+(* C04 for unary calls: success only if the second Receive saw the terminator *)
+Lemma unary_success_needs_terminator_lemma : forall rs m,
+  unary_outcome rs = UOk m ->
+  exists r2 rest, rs = UMsg m :: r2 :: rest /\
+    ((exists fl d, r2 = USpecial fl d /\ on_special fl d = Clean) \/ (r2 = UErr REOF /\ on_eof = Clean)).
+Proof.
+  intros rs m H. destruct rs as [|r1 [|r2 rest]]; try discriminate.
+  unfold unary_outcome in H.
+  destruct r1 as [m1|[|c1]|fl1 d1]; cbn [single] in H.
+  - destruct r2 as [m2|[|c2]|fl2 d2]; cbn [single] in H.
+    + discriminate.
+    + destruct on_eof eqn:E; [|discriminate]. inversion H; subst. exists (UErr REOF), rest. split; [reflexivity|]. right. split; reflexivity.
+    + specialize (on_error_fails c2). destruct (on_error c2); [congruence|discriminate].
+    + destruct (on_special fl2 d2) eqn:E; [|discriminate]. inversion H; subst. exists (USpecial fl2 d2), rest. split; [reflexivity|]. left. exists fl2, d2. split; [reflexivity|exact E].
+  - destruct on_eof; discriminate.
+  - destruct (on_error c1); discriminate.
+  - destruct (on_special fl1 d1); discriminate.
+Qed.
+
+(* C15 / C02 for unary calls: whatever code a failed Receive carries — the peer's
+   status, the end of the context — is the code of the call, before or after the message *)
+Lemma unary_failure_keeps_code_lemma : forall r1 r2 rest c,
+  (single r1 = inr (Failed c) \/ (exists m, single r1 = inl m /\ single r2 = inr (Failed c))) ->
+  unary_outcome (r1 :: r2 :: rest) = UFail c.
+Proof.
+  intros r1 r2 rest c [H|[m [H1 H2]]]; unfold unary_outcome.
+  - rewrite H. reflexivity.
+  - rewrite H1, H2. reflexivity.
+Qed.
+
 End ClientRecv.
+
+Arguments UOk {M}.
+Arguments UFail {M}.
 
 (* ------------------------------------------------------------------ *)
 Section CutOutcome.
